@@ -7,7 +7,9 @@
 use pavex::config::{ConfigLoader, ConfigProfile};
 use serde_json::Value;
 
+// `deny_unknown_fields`: the documented reason why PX_PROFILE must not surface as a key
 #[derive(serde::Deserialize, Debug)]
+#[serde(deny_unknown_fields)]
 struct Cfg {
     k0: u8,
     k1: u8,
